@@ -262,7 +262,9 @@ def _variables(single):
 def _pipeline(case=None):
     import pyx
 
-    groups = {GROUP: [{"name": MODEL, "func": "probes.cal_probe_temp", "arguments": {"a": 0.0, "v": [0.0, 0.0], "off": 0.0}}]}
+    # `_token`: identity of the current run, readable from the problem inside the recorders (see _install_recorder)
+    groups = {GROUP: [{"name": MODEL, "func": "probes.cal_probe_temp",
+                       "arguments": {"a": 0.0, "v": [0.0, 0.0], "off": 0.0, "_token": _TOKEN["run"]}}]}
     if case is not None and case.get("stochastic"):
         # a random model WITHOUT its own seed: reproducible only through the declared pipeline seed
         groups["charge_measurement"] = [{"name": "noise", "func": "probes.noisy_to_image", "arguments": {"scale": 2.0}}]
@@ -384,6 +386,14 @@ def run_fitness(case):
 
 
 _REC: list = []
+_TOKEN = {"run": None}
+
+
+def _token_of(problem):
+    try:
+        return problem.param_processor_list[0].get(KEY + "_token")
+    except Exception:  # noqa: BLE001
+        return None
 
 
 def _install_recorder():
@@ -398,11 +408,11 @@ def _install_recorder():
 
     def fitness(self, x):
         out = orig_f(self, x)
-        _REC.append(("eval", [float(t) for t in x], float(out[0])))
+        _REC.append(("eval", [float(t) for t in x], float(out[0]), _token_of(self)))
         return out
 
     def champs(self):
-        _REC.append(("mark",))
+        _REC.append(("mark", None, None, _token_of(self.problem)))
         return orig_c(self)
 
     ModelFittingDataTree.fitness = fitness
@@ -417,7 +427,10 @@ def run_calibration(case):
     from pyxel.calibration import Algorithm, Calibration
     from pyxel.exposure import Exposure
 
+    import uuid
+
     _install_recorder()
+    _TOKEN["run"] = uuid.uuid4().hex
     single = case["single_parameter"]
     tmp = tempfile.mkdtemp(prefix="c11-")
     try:
@@ -437,11 +450,13 @@ def run_calibration(case):
             pipeline_seed=case.get("pipeline_seed"),
         )
         _REC.clear()
+        run_token = _TOKEN["run"]
         try:
             dt = pyxel.run_mode(cal, pyx.make_detector("CCD", *case["det"]), _pipeline(case))
         except Exception as e:  # noqa: BLE001
             return {"error": common.err_kind(e), "msg": str(e)[:300]}
-        rec = list(_REC)
+        # only what THIS run's problem evaluated (island threads of an earlier, failed run may still be alive)
+        rec = [r for r in list(_REC) if r[3] == run_token]
         out = {"champion_fitness": np.asarray(dt["/champion/fitness"].values, dtype=float).tolist(),
                "champion_decision": np.asarray(dt["/champion/decision"].values, dtype=float).tolist(),
                "champion_parameters": np.asarray(dt["/champion/parameters"].values, dtype=float).tolist()}
